@@ -1,5 +1,6 @@
 import SarpyModel.Drivers.Util
 import SarpyModel.Spec.Slice
+import SarpyModel.Spec.Subscript
 import SarpyModel.Gen.Slices
 namespace Sarpy.Drivers
 open Sarpy Sarpy.Spec
@@ -14,9 +15,28 @@ def toN (s : PySlice) : Option NSlice :=
   | some a, some c => some ⟨a, s.stop, c⟩
   | _, _ => none
 
+/-- one entry of a tuple subscript: `E` | `N` | `i<int>` | `s<a>/<b>/<c>` -/
+def parseEntry (s : String) : Option SubEntry :=
+  if s == "E" then some .ell
+  else if s == "N" then some (.item .none)
+  else if s.startsWith "i" then ((s.drop 1).toString).toInt?.map (fun i => .item (.int i))
+  else if s.startsWith "s" then
+    match ((s.drop 1).toString).splitOn "/" with
+    | [a, b, c] => do
+      let a ← parseO a; let b ← parseO b; let c ← parseO c
+      pure (.item (.slice ⟨a, b, c⟩))
+    | _ => none
+  else none
+
 /-- answers: `<gen result> | <spec result>` -/
 def sliceStep (toks : List String) : Option String :=
   match toks with
+  | "sub" :: shape :: entries => do
+    let shape ← (shape.splitOn ",").mapM (·.toNat?)
+    let l ← entries.mapM parseEntry
+    match verifySub shape l with
+    | none => pure "refused"
+    | some ts => pure ("ok " ++ ";".intercalate (ts.map pn) ++ " " ++ pl (readFlat shape ts))
   | ["np", n, a, b, c] => do
     let n ← n.toNat?; let a ← parseO a; let b ← parseO b; let c ← parseO c
     pure (pl (npIndices n ⟨a, b, c⟩))
